@@ -13,6 +13,7 @@ from ..describe import EPOCH, MS
 
 D4 = "D4-record-timestamps-floored-to-seconds-on-read"
 D16 = "D16-truncated-batch-with-colliding-crc-accepted"
+D17 = "D17-record-timestamps-outside-the-datetime-model"
 BATCH_FIELDS = ("base_offset", "partition_leader_epoch", "attributes", "last_offset_delta", "base_timestamp", "max_timestamp",
                 "producer_id", "producer_epoch", "base_sequence")
 
@@ -327,6 +328,13 @@ def _identity(res: Result, raw: bytes, b: dict, label: str) -> bool:
     try:
         got = read_batch(src)
     except Exception as exc:  # noqa: BLE001
+        outside = [b["base_timestamp"] + r["timestamp_delta"] for r in b["records"] if not 0 <= b["base_timestamp"] + r["timestamp_delta"] <= gen.DT_MAX]
+        if outside and isinstance(exc, (TypeError, ValueError, OverflowError)):
+            # D17: the record model (an aware datetime at or after the epoch) has no value for this timestamp
+            res.count("unrepresentable_timestamp_batches_rejected")
+            res.known_or_violation(D17, f"read-raises:{type(exc).__name__}:unrepresentable-timestamp",
+                                   f"read_batch raised {exc!r} on a well-formed batch with record timestamp {outside[0]} ms ({label})", dict(payload, error=traceback.format_exc()))
+            return False
         res.violation(f"read-raises:{type(exc).__name__}", f"read_batch raised {exc!r} on a well-formed batch ({label})", dict(payload, error=traceback.format_exc()))
         return False
     if src.tell() != len(raw):
@@ -518,6 +526,26 @@ def c18_worker(res: Result, i: int, n: int) -> None:
             _damage(res, rng, raw, outcomes, {"origin": label, "bytes": raw}, 256 if not thorough else 768)
         if res.counters["batches"] % 37 == 1:
             res.sample({"origin": label, "bytes": raw, "records": len(b["records"])})
+    # record timestamps that kio's record model cannot hold: NO_TIMESTAMP (-1, written by brokers for up-converted messages), other
+    # negative values, beyond year 9999.  The batches are well-formed; reading them is expected to be the identity like any other.
+    for k in range(i, 48 if not thorough else 1500, n):
+        rng = common.rng_for("C18", "timestamps-outside", k)
+        b, _ = gen_batch(rng, False, 4)
+        mode = ("no-timestamp", "negative-record", "beyond-9999")[k % 3]
+        if mode == "no-timestamp":
+            b["base_timestamp"] = b["max_timestamp"] = -1
+            for r in b["records"]:
+                r["timestamp_delta"] = 0
+        elif mode == "negative-record":
+            b["base_timestamp"] = rng.choice((0, 1, 999, 1000, 5000))
+            b["records"][rng.randrange(len(b["records"]))]["timestamp_delta"] = -b["base_timestamp"] - rng.choice((1, 2, 1000, 86_400_000))
+            b["max_timestamp"] = max(b["base_timestamp"] + r["timestamp_delta"] for r in b["records"])
+        else:
+            b["base_timestamp"] = gen.DT_MAX - rng.choice((0, 1, 500))
+            b["records"][-1]["timestamp_delta"] = rng.choice((1, 2, 1000, 2**40)) + (gen.DT_MAX - b["base_timestamp"])
+            b["max_timestamp"] = max(b["base_timestamp"] + r["timestamp_delta"] for r in b["records"])
+        res.count("batches_with_timestamps_outside_the_model")
+        _identity(res, recref.encode_batch(b), b, f"{mode} batch #{k}")
     # truncations that a checksum cannot see: the surviving bytes are crafted to have the recorded CRC
     for k in range(i, 64 if not thorough else 4000, n):
         rng = common.rng_for("C18", "colliding", k)
